@@ -247,6 +247,18 @@ pub struct IdentityHash {
     hash: u64,
 }
 
+#[cfg(feature = "verif-hooks")]
+impl Identity {
+    /// Constructor for the verification codec hook (`zalsa_local::verif_codec`).
+    pub(crate) fn verif_new(ingredient_index: IngredientIndex, hash: u64, disambiguator: u32) -> Self {
+        Identity {
+            ingredient_index,
+            hash,
+            disambiguator: Disambiguator(disambiguator),
+        }
+    }
+}
+
 /// A map from tracked struct [`Identity`] to their final [`Id`].
 #[derive(Default, Debug)]
 pub(crate) struct IdentityMap {
